@@ -15,7 +15,7 @@ META = dict(c03.META)
 META.update({
     'property': 'C04',
     'lean_props': ['DoitModel.Props.C04'],
-    'budget': {'quick': 30, 'thorough': 420},
+    'budget': {'quick': 25, 'thorough': 420},
     'anchors': c03.META['anchors'] + ['doit/runner.py::MRunner', 'doit/runner.py::MThreadRunner'],
     'design_ref': '§5 C04, §4 M2',
     'level_text': 'Machine-checked: for every finite history (as C03) and every prefix, a task for which none of the '
